@@ -416,6 +416,27 @@ Definition actor_accepts (tbl : list variant) (m : smsg) : bool :=
 Definition job_actor_accepts (kt : ty) (tbl : list variant) (m : smsg) : bool :=
   match job_deserialize kt tbl m with JOk _ _ _ _ => true | _ => false end.
 
+(* ---------- framing-level acceptability (what the property names: unknown variant,
+   short or trailing bytes, bad job metadata), independent of the user conversions ---------- *)
+
+Definition framing_ok_C19 (tbl : list variant) (m : smsg) : bool :=
+  let chk call tag args :=
+    match find_variant tbl call tag 0 with
+    | None => false
+    | Some (_, v) => match unpack (length (v_tys v)) args with Some _ => true | None => false end
+    end in
+  match m with
+  | SReply => false
+  | SCast tag args _ => chk false tag args
+  | SCall tag args _ => chk true tag args
+  end.
+
+Definition meta_ok_C19 (kt : ty) (m : smsg) : bool :=
+  match m with
+  | SReply => false
+  | _ => match smsg_meta m with None => false | Some bs => negb (Nat.ltb (length bs) 16) end
+  end.
+
 (* ---------- the round-trip clause as an executable oracle ---------- *)
 
 Definition ev_eqb (a b : ev) : bool :=
